@@ -26,11 +26,10 @@ SortedSeq(S) == IF S = {} THEN <<>>
 PosIn(s, k) == IF \E p \in 1..Len(s) : s[p] = k THEN CHOOSE p \in 1..Len(s) : s[p] = k ELSE 0
 
 \* tokens of the values held for key k, ordered by the position at which sources were added
-RECURSIVE HoldersFrom(_, _, _)
-HoldersFrom(srcs, k, i) ==
-    IF i > Len(srcs) THEN <<>>
-    ELSE (IF PosIn(srcs[i], k) # 0 THEN << <<i, PosIn(srcs[i], k)>> >> ELSE <<>>) \o HoldersFrom(srcs, k, i + 1)
-Holders(srcs, k) == HoldersFrom(srcs, k, 1)
+Holders(srcs, k) ==
+    LET idx == [i \in 1..Len(srcs) |-> i]
+        sel == SelectSeq(idx, LAMBDA i : PosIn(srcs[i], k) # 0) IN
+    [x \in 1..Len(sel) |-> <<sel[x], PosIn(srcs[sel[x]], k)>>]
 
 \* The value the merger must yield for key k under merge function mf:
 \*   "concat" -- concatenation of all values (a lone value is returned unchanged)
